@@ -59,6 +59,9 @@ func c16Setup(algo string, m int) {
 // of a client-origin route. Its commands go through the internal face to recording threads.
 var c16RecOnce sync.Once
 
+// c16Poisoned is set when a case left goroutines stuck (deadlock): the rest of the batch is skipped.
+var c16Poisoned bool
+
 func c16SetupReadvertise(algo string, m int) bool {
 	cfg := fwenv.Config()
 	cfg.Tables.Fib.Hashtable.M = uint16(m)
@@ -197,6 +200,7 @@ func c16Clients(c *h.Ctx, id string, r *rand.Rand) {
 	case <-time.After(40 * time.Second):
 		buf := make([]byte, 1<<18)
 		nb := runtime.Stack(buf, true)
+		c16Poisoned = true // stuck goroutines keep running in this process: later cases would only add noise
 		c.Violation("C16:deadlock:table-clients", id, "table clients did not finish within 40 s (deadlock suspected)", map[string]any{"algo": algo, "goroutines": g, "nlsr_readvertiser": readv, "stacks": string(buf[:nb])})
 		return
 	}
@@ -552,6 +556,10 @@ func c16Run(c *h.Ctx) {
 	n := c.Pick(6, 120)
 	for k := 0; k < n; k++ {
 		id := fmt.Sprintf("clients%d", k)
+		if c16Poisoned {
+			c.Note("batch_cut_short", "a deadlocked case left goroutines stuck; remaining cases of this batch were skipped")
+			return
+		}
 		if c.Case(id) {
 			c16Clients(c, id, c.Rng(id))
 		}
